@@ -193,6 +193,30 @@ Theorem c19_es_header_needs_escape :
 Proof. exact es_header_needs_escape. Qed.
 Print Assumptions c19_es_header_needs_escape.
 
+(* well-formedness of the splunk envelope: under the oracle hypotheses (the event's encoding and every
+   copied value are JSON documents, the key literals are JSON string literals — checked on every run)
+   the envelope of every event is one valid JSON document, an object, whatever copy_fields puts where
+   (nested targets, targets written twice, targets below or above earlier ones) *)
+Theorem c19_splunk_envelope_valid :
+  forall cfg e,
+  Forall cp_lits_ok cfg -> json_valid (enc e) = true -> Forall opt_wf (ev_copy e) ->
+  json_valid (envelope cfg e) = true /\ exists rest, envelope cfg e = 123%N :: rest.
+Proof. exact envelope_valid. Qed.
+Print Assumptions c19_splunk_envelope_valid.
+
+(* ... and the request body of a batch is cut by the predicate's own cutter (docs_of_body: the JSON
+   automaton back at depth 0) into exactly the envelopes of the deliverable events — one document per
+   event, in batch order, nothing else — each a valid JSON document *)
+Theorem c19_splunk_payload_docs :
+  forall cfg batch prev script,
+  Forall cp_lits_ok cfg -> Forall ev_copy_ok (deliverable batch) ->
+  exists a, splunk_out cfg batch prev script = Ok a
+    /\ (forall cfgsx, splunk_cfg_of_sx cfgsx = Some cfg ->
+        Forall (fun q => docs_of_body 4 cfgsx (rq_body q) = Some (expected_docs 4 cfgsx batch)) (at_reqs a))
+    /\ Forall (fun d => json_valid d = true) (map (envelope cfg) (deliverable batch)).
+Proof. exact splunk_payload_docs. Qed.
+Print Assumptions c19_splunk_payload_docs.
+
 (* buffer reuse across successive batches and retries: the payload does not depend on what the
    worker's buffer held nor on earlier answers *)
 Theorem c19_payload_independent_of_prev_buf :
@@ -252,10 +276,11 @@ Proof. split; [exact ex_hyps_ok|repeat split; vm_compute; reflexivity]. Qed.
    the copied fields *)
 Example c19_splunk_nonvacuous :
   Forall cp_ok ex_scfg
+  /\ (Forall cp_lits_ok ex_scfg /\ Forall ev_copy_ok [ex_s1; ex_s2; ex_s3])
   /\ envelope ex_scfg ex_s1 = [123; 34; 101; 118; 101; 110; 116; 34; 58; 123; 34; 109; 115; 103; 34; 58; 34; 102; 105; 114; 115; 116; 34; 44; 34; 116; 115; 34; 58; 34; 49; 55; 34; 44; 34; 115; 101; 114; 118; 105; 99; 101; 34; 58; 34; 97; 34; 125; 44; 34; 116; 105; 109; 101; 34; 58; 34; 49; 55; 34; 44; 34; 102; 105; 101; 108; 100; 115; 34; 58; 123; 34; 115; 101; 114; 118; 105; 99; 101; 95; 110; 97; 109; 101; 34; 58; 34; 97; 34; 125; 125]%N
   /\ envelope ex_scfg ex_s2 = [123; 34; 101; 118; 101; 110; 116; 34; 58; 123; 34; 109; 115; 103; 34; 58; 34; 115; 101; 99; 111; 110; 100; 34; 125; 125]%N
   /\ envelope ex_scfg ex_s3 = [123; 34; 101; 118; 101; 110; 116; 34; 58; 123; 34; 109; 115; 103; 34; 58; 34; 116; 104; 105; 114; 100; 34; 44; 34; 115; 101; 114; 118; 105; 99; 101; 34; 58; 34; 99; 34; 125; 44; 34; 102; 105; 101; 108; 100; 115; 34; 58; 123; 34; 115; 101; 114; 118; 105; 99; 101; 95; 110; 97; 109; 101; 34; 58; 34; 99; 34; 125; 125]%N
   /\ (match splunk_out ex_scfg [ex_s1; ex_s2; ex_s3] [1; 2; 3]%N [500] with
       | Ok a => (map rq_body (at_reqs a), at_ret a) | _ => ([], 9) end)
      = ([envelope ex_scfg ex_s1 ++ envelope ex_scfg ex_s2 ++ envelope ex_scfg ex_s3], 1).
-Proof. split; [exact ex_scfg_ok|repeat split; vm_compute; reflexivity]. Qed.
+Proof. split; [exact ex_scfg_ok|split; [exact ex_scopy_ok|repeat split; vm_compute; reflexivity]]. Qed.
